@@ -30,6 +30,15 @@ def gen(ctx):
     rng = ctx.rng
     yield dict(kind="tot", n=[[0, 0, 0]], shape="1d", k=3, rule=777, form="func")
     yield dict(kind="tot", n=[[2, 2, 2]], shape="1d", k=3, rule=777, form="class")
+    for _ in range(ctx.n(150, 1500)):
+        # one process, one rule number, different k / neighbourhood sizes in both orders (a cache keyed by too little)
+        rule = rng.choice([777, 30, 6, 1, rng.getrandbits(12), rng.getrandbits(6)])
+        seq = []
+        for k in rng.choice([[4, 3, 2], [2, 3, 4], [3, 3, 2], [5, 2, 5]]):
+            for _ in range(rng.randint(1, 2)):
+                n, shape = shape_cells(rng, k)
+                seq.append(dict(kind="tot", n=n, shape=shape, k=k, rule=rule, form=rng.choice(["func", "class"])))
+        yield dict(kind="seq", seq=seq)
     for _ in range(ctx.n(2500, 30000)):
         k = rng.choice([2, 2, 3, 3, 4, 5, 7, 10, 11, 16, 35, 36, rng.randint(2, 36)])
         n, shape = shape_cells(rng, k)
@@ -51,6 +60,8 @@ def gen(ctx):
 
 
 def line(c):
+    if c["kind"] == "seq":
+        return None
     return "totalistic n=%s k=%d rule=%d" % (fmt.omat(c["n"]), c["k"], c["rule"])
 
 
@@ -74,6 +85,8 @@ def call(c):
 
 
 def impl(c):
+    if c["kind"] == "seq":
+        return "|".join(impl(x) for x in c["seq"])
     try:
         return "ok %d" % call(c)
     except Exception as e:  # noqa
@@ -81,6 +94,12 @@ def impl(c):
 
 
 def oracle(c):
+    if c["kind"] == "seq":
+        for i, x in enumerate(c["seq"]):
+            bad = oracle(x)
+            if bad:
+                return "call %d of a sequence in one process: %s" % (i, bad)
+        return None
     k, rule = c["k"], c["rule"]
     flat = [x for r in c["n"] for x in r]
     size = len(flat)
@@ -103,6 +122,8 @@ def oracle(c):
 
 
 def nontrivial(c, ans):
+    if c["kind"] == "seq":
+        return True
     flat = [x for r in c["n"] for x in r if x is not None]
     digits = set()
     x = c["rule"]
@@ -113,6 +134,11 @@ def nontrivial(c, ans):
 
 
 def shrink(c):
+    if c["kind"] == "seq":
+        for i in range(len(c["seq"])):
+            if len(c["seq"]) > 1:
+                yield dict(c, seq=c["seq"][:i] + c["seq"][i + 1:])
+        return
     yield dict(c, rule=c["rule"] // c["k"])
     if c["shape"] == "1d" and len(c["n"][0]) > 2:
         yield dict(c, n=[c["n"][0][1:-1]])
